@@ -794,7 +794,7 @@ class Checker:
 def case_budget(case, tier):
     if case.get("budget"):
         return case["budget"]
-    return 20.0 if tier == "quick" else 150.0
+    return 20.0 if tier == "quick" else 90.0
 
 
 class Outcome:
@@ -1186,8 +1186,8 @@ UDDD_FIRST = ["gdown", "gup", "Gamma_udd", "Riemann_uddd", "Riemann_down",
 
 G2 = dict(dim=2,
           diag=[dict(sign=1, D=3, terms=[T((1, 2), "sq", 1)]),
-                dict(sign=1, D=4, terms=[T((1, 3), "mix", 0, 1)])],
-          off=[dict(i=0, j=1, terms=[T((1, 4), "lin", 0)])],
+                dict(sign=1, D=4, terms=[T((1, 3), "sq", 0)])],
+          off=[dict(i=0, j=1, terms=[T((1, 4), "mix", 0, 1)])],
           points=[[[3, 4], [-2, 3]], [[-5, 7], [1, 2]]])
 G3 = dict(dim=3,
           diag=[dict(sign=1, D=3, terms=[T((1, 2), "sq", 1),
@@ -1255,7 +1255,7 @@ def subchecks(tier):
                                 case_strategy(s_sizes, True, "order"))
     return [
         Sub("textbook_simplify", case_strategy(s_sizes, True),
-            make_test_textbook(tier), 16 if q else 160,
+            make_test_textbook(tier), 12 if q else 160,
             generic=[fixed(G2, True, ["Ricci_down", "Riemann_down",
                                       "Riemann_uddd", "RicciS"]),
                      fixed(G2, True, ["gup", "gdet", "Gamma_udd", "Gamma_down",
@@ -1263,9 +1263,10 @@ def subchecks(tier):
                                       "Ricci_down", "Einstein_down"]),
                      fixed(G3S, True, DIRECT_FIRST[:4]),
                      fixed(G3D, True, UDDD_FIRST)],
-            shards=4 if q else 16, shrink_quick=False, max_rounds=3),
+            shards=4 if q else 16, shrink_quick=False,
+            max_rounds=2 if q else 4),
         Sub("textbook_nosimplify", case_strategy(ns_sizes, False),
-            make_test_textbook(tier), 72 if q else 4000,
+            make_test_textbook(tier), 48 if q else 2000,
             generic=[fixed(G3, False, DIRECT_FIRST),
                      fixed(G3, False, UDDD_FIRST),
                      fixed(G4, False, UDDD_FIRST),
@@ -1273,12 +1274,12 @@ def subchecks(tier):
                      fixed(G2, False, UDDD_FIRST)],
             shards=8 if q else 16, shrink_quick=False, max_rounds=6),
         Sub("simplify_indep", case_strategy(s_sizes, True),
-            make_test_pair(tier, "simplify"), 8 if q else 100,
+            make_test_pair(tier, "simplify"), 8 if q else 96,
             generic=[fixed(G2, True, UDDD_FIRST[:7]),
                      fixed(G3D, True, DIRECT_FIRST[:2])],
             shards=4 if q else 16, shrink_quick=False, max_rounds=3),
         Sub("order_indep", order_cases, make_test_pair(tier, "order"),
-            48 if q else 1500,
+            32 if q else 1000,
             generic=[fixed(G3, False, DIRECT_FIRST, order2=UDDD_FIRST),
                      fixed(G2, True, DIRECT_FIRST[:2],
                            order2=UDDD_FIRST[:6])],
